@@ -10,11 +10,13 @@ package main
 //     and shuffled; SplitExp.CallMode on generated map / array literals vs the Lean fold.
 
 import (
+	"encoding/json"
 	"fmt"
 	"path/filepath"
 	"sort"
 	"strings"
 
+	"github.com/martian-lang/martian/martian/core"
 	"github.com/martian-lang/martian/martian/syntax"
 )
 
@@ -27,6 +29,7 @@ func c10IntArray(vs ...int64) *syntax.ArrayExp {
 }
 
 func c10Site2Provocations(c *Ctx, out map[string]func() string) {
+	c10RuntimeProvocations(c, out)
 	n := 11
 	ref := func(i int) *syntax.RefExp {
 		return &syntax.RefExp{Kind: syntax.KindCall, Id: "S", OutputId: fmt.Sprint("o", i)}
@@ -359,6 +362,147 @@ func c10CallModeDifferential(c *Ctx, n int) {
 	}
 }
 
+// ---- core run-time sites -------------------------------------------------------------------------
+
+func c10RuntimeSrc(n int) string {
+	var calls []string
+	for i := 0; i < n; i++ {
+		calls = append(calls, fmt.Sprintf("    call S as S%02d(\n        x = self.x,\n    )\n", (i*7)%n))
+	}
+	return "struct Pt(\n    int x,\n    int y,\n    string label,\n)\n\nstage S(\n    in  int x,\n    out int r,\n    src comp \"bin/s\",\n)\n\npipeline P(\n    in  int x,\n    out int r,\n    out map<Pt> pts,\n)\n{\n" +
+		strings.Join(calls, "\n") + "\n    return (\n        r = S00.r,\n        pts = {},\n    )\n}\n\ncall P(\n    x = 1,\n)\n"
+}
+
+func c10RuntimeProvocations(c *Ctx, out map[string]func() string) {
+	n := 11
+	dir := filepath.Join(c.Scratch, "c10runtime")
+	src := c10RuntimeSrc(n)
+	world := func() (*core.VerifWorld, string) {
+		w, err := core.VerifNewWorld(src, "ps", dir)
+		if err != nil {
+			return nil, "WORLD-ERR " + err.Error()
+		}
+		if err := w.VerifC10AddForks(); err != nil {
+			return nil, "FORK-ERR " + err.Error()
+		}
+		return w, ""
+	}
+	out["Fork.getStages(11 subnodes)"] = func() string {
+		w, e := world()
+		if w == nil {
+			return e
+		}
+		return w.VerifC10Stages("ID.ps.P")
+	}
+	out["Fork.serializePerf(11 subnodes)"] = func() string {
+		w, e := world()
+		if w == nil {
+			return e
+		}
+		// every sub-fork has a VDR kill report naming its own paths and errors
+		for i := 0; i < n; i++ {
+			if err := w.VerifC10WriteVdrKill(fmt.Sprintf("ID.ps.P.S%02d", i),
+				[]string{fmt.Sprintf("/p/S%02d/a", i), fmt.Sprintf("/p/S%02d/b", i)},
+				[]string{fmt.Sprintf("could not remove /p/S%02d/c", i)}); err != nil {
+				return "WRITE-ERR " + strings.ReplaceAll(err.Error(), dir, "$D")
+			}
+		}
+		return strings.ReplaceAll(w.VerifC10SerializePerf("ID.ps.P"), dir, "$D")
+	}
+	out["Fork.verifyPipelineOutput(invalid entries)"] = func() string {
+		w, e := world()
+		if w == nil {
+			return e
+		}
+		outs := core.MarshalerMap{}
+		for i := 0; i < n; i++ {
+			st := core.MarshalerMap{"x": json.RawMessage("1"), "y": json.RawMessage("2"), "label": json.RawMessage("\"l\"")}
+			st[[]string{"x", "y", "label"}[i%3]] = json.RawMessage(fmt.Sprintf("[%d]", i))
+			outs[fmt.Sprintf("k%02d", (i*7)%n)] = st
+		}
+		ok, msg := w.VerifC10VerifyPipelineOutput("ID.ps.P", outs, syntax.TypeId{Tname: "Pt", MapDim: 1})
+		return fmt.Sprint(ok, " ", msg)
+	}
+}
+
+// c10UnknownKeysDifferential: getUnknownKeys on every form of run-time map; what its consumers do with the
+// keys (sort them, count them) must not depend on the order it returned them in.
+func c10UnknownKeysDifferential(c *Ctx, n int) {
+	r := c.Res
+	type kase struct {
+		form string
+		keys []string
+		want string
+	}
+	var cases []kase
+	var reqs [][]string
+	for i := 0; i < n; i++ {
+		keys := c10Keys(c.Rng, c.Rng.Intn(14))
+		var v json.Marshaler
+		form := []string{"MapExp", "MarshalerMap", "LazyArgumentMap", "RawMessage", "reflect"}[i%5]
+		switch form {
+		case "MapExp":
+			m := &syntax.MapExp{Kind: syntax.KindMap, Value: map[string]syntax.Exp{}}
+			for _, k := range keys {
+				m.Value[k] = &syntax.IntExp{Value: 1}
+			}
+			v = m
+		case "MarshalerMap":
+			m := core.MarshalerMap{}
+			for _, k := range keys {
+				m[k] = json.RawMessage("1")
+			}
+			v = m
+		case "LazyArgumentMap":
+			m := core.LazyArgumentMap{}
+			for _, k := range keys {
+				m[k] = json.RawMessage("1")
+			}
+			v = m
+		case "RawMessage":
+			m := map[string]int{}
+			for _, k := range keys {
+				m[k] = 1
+			}
+			b, _ := json.Marshal(m)
+			v = json.RawMessage(b)
+		default:
+			m := core.VerifC10RawMap{}
+			for _, k := range keys {
+				m[k] = 1
+			}
+			v = m
+		}
+		got, err := core.VerifC10UnknownKeys(v)
+		if err != nil {
+			r.note("getUnknownKeys(%s) failed on %q: %v", form, keys, err)
+			continue
+		}
+		sorted := append([]string(nil), keys...)
+		sort.Strings(sorted)
+		if len(got) != len(keys) {
+			r.violate(Violation{Kind: "correspondence", Key: "C10:model-mismatch:getUnknownKeys",
+				What:  "getUnknownKeys returns a different number of keys than the map has",
+				Input: map[string]interface{}{"form": form, "keys": keys}, Impl: got, Broken: "unknownKeys_order_independent"})
+			continue
+		}
+		cases = append(cases, kase{form: form, keys: got, want: hxList(sorted)})
+		reqs = append(reqs, []string{"C10.sortkeys", hxList(got)})
+	}
+	reps := c.Drv.AskBatch(reqs)
+	for i, k := range cases {
+		r.count("unknownkeys\x00"+k.form+"\x00"+k.want, len(k.keys) >= 3)
+		r.hist("getUnknownKeys-differential")
+		r.Evals++
+		if strings.TrimSpace(reps[i]) != k.want {
+			r.violate(Violation{Kind: "correspondence", Key: "C10:model-mismatch:getUnknownKeys",
+				What:  "the keys returned by getUnknownKeys, sorted by the Lean model of its consumers, are not the sorted keys of the map",
+				Input: map[string]interface{}{"form": k.form, "returned": k.keys}, Impl: k.want, Model: reps[i],
+				Broken: "correspondence C10.sortkeys (theorem unknownKeys_order_independent)"})
+		}
+	}
+}
+
 func c10Site2Differentials(c *Ctx) {
 	nfsc, nmode := 150, 200
 	if c.Thorough {
@@ -366,4 +510,5 @@ func c10Site2Differentials(c *Ctx) {
 	}
 	c10FindSplitCallsDifferential(c, nfsc)
 	c10CallModeDifferential(c, nmode)
+	c10UnknownKeysDifferential(c, nmode)
 }
